@@ -100,7 +100,7 @@ Qed.
 Lemma raw_got_event_K : forall s j, InvW s -> rw_reg s j = true -> PK s (raw_got_event sc s j).
 Proof.
   intros s j I RJ. unfold raw_got_event. cbv zeta.
-  set (toread := if efd_raw s =? 0 then 1024 else 8).
+  set (toread := if raw_is_pipe s j then 1024 else 8).
   pose proof (kstable_read (kern s) (rw_rfd s j) toread) as KS.
   destruct (al_raw _ _ (InvW_AL s I) j RJ) as (_ & NR & _).
   pose proof (KT_read (tfd s) (kern s) (rw_rfd s j) toread NR) as KT1.
